@@ -324,6 +324,11 @@ class Check:
     profiles = ("release",)
     evalA_sample = 300
     order_check = True       # re-run the stream in a shuffled order and demand identical per-case results
+    twin_check = True        # near copies of a sample of the cases, run right after the case (see run_check 4c)
+    twin_sample = 400
+    twin_diff = False        # also compare the near copy with the model (only where every case line is in the model's domain
+                             # whatever its arguments are; several operations take derived arguments as given)
+    twin_maxlen = 8000
     peak = False
     impl_timeout = 600
     model_shard = 1000
@@ -345,6 +350,11 @@ class Check:
         return impl == model
 
     def known(self, case, impl):
+        return None
+
+    def twin_args(self, words):
+        """argument positions of a case line that may be varied on their own (None = all); positions whose value is
+        derived from another argument (a digest of it, a count) are left alone - the model takes them as given"""
         return None
 
     def evalA_ok(self, line):
@@ -371,6 +381,84 @@ class Ctx:
 
     def model(self, line):
         return self.model_many([line])[0]
+
+
+HEXRE = re.compile(r"^(?:[0-9a-f]{2})+$")
+
+
+def make_twins(cases, rng, want, maxlen, allowed=None):
+    """[(case index, near-copy line, kind)] - stratified over (operation, class); every choice comes from `rng`"""
+    groups = {}
+    for i, c in enumerate(cases):
+        if len(c.line) <= maxlen and " " in c.line:
+            groups.setdefault((c.line.split(" ", 1)[0], c.cls), []).append(i)
+    by_op = {}
+    for (op, _), idx in groups.items():
+        by_op.setdefault(op, []).extend(idx)
+    keys = sorted(groups)
+    rng.shuffle(keys)
+    out, seen, rounds = [], set(), 0
+    while len(out) < want and rounds < 40:
+        rounds += 1
+        progressed = False
+        for key in keys:
+            if len(out) >= want:
+                break
+            i = rng.choice(groups[key])
+            w = cases[i].line.split(" ")
+            js = [j for j in range(1, len(w)) if HEXRE.match(w[j]) or (w[j].isdigit() and len(w[j]) < 25)]
+            if allowed is not None:
+                ok = allowed(w)
+                if ok is not None:
+                    js = [j for j in js if j in ok]
+            if not js:
+                continue
+            j = rng.choice(js)
+            a = w[j]
+            kinds = ["cross"]
+            if HEXRE.match(a) and not a.isdigit():
+                kinds += ["flip", "flip-late", "flip"]
+                if len(a) >= 128:
+                    kinds += ["swap32", "swap32"]
+                if len(a) >= 32:
+                    kinds.append("swap8")
+            elif a.isdigit():
+                kinds += ["step", "step"]
+                if HEXRE.match(a):
+                    kinds.append("flip")
+            kind = rng.choice(kinds)
+            b = a
+            if kind in ("flip", "flip-late"):
+                pos = rng.randrange(len(a)) if kind == "flip" else rng.randrange(max(0, len(a) - 16), len(a))
+                ch = rng.choice([x for x in "0123456789abcdef" if x != a[pos]])
+                b = a[:pos] + ch + a[pos + 1:]
+            elif kind in ("swap32", "swap8"):
+                n = 64 if kind == "swap32" else 16
+                off = rng.choice(range(0, min(n, len(a) - 2 * n + 2), 2)) if len(a) > 2 * n else 0
+                k = (len(a) - off) // n
+                if k >= 2:
+                    x, y = rng.sample(range(k), 2)
+                    ch = [a[off + t * n: off + (t + 1) * n] for t in range(k)]
+                    ch[x], ch[y] = ch[y], ch[x]
+                    b = a[:off] + "".join(ch) + a[off + k * n:]
+            elif kind == "step":
+                v = int(a)
+                b = str(v + 1 if (v == 0 or rng.random() < 0.5) else v - 1)
+            else:
+                o = cases[rng.choice(by_op[key[0]])].line.split(" ")
+                if len(o) == len(w):
+                    b = o[j]
+            if b == a:
+                continue
+            tl = " ".join(w[:j] + [b] + w[j + 1:])
+            if (i, tl) in seen or len(tl) > maxlen:
+                continue
+            seen.add((i, tl))
+            out.append((i, tl, "%s in argument %d" % (kind, j)))
+            progressed = True
+        if not progressed:
+            break
+    return out
 
 
 def write_replay(pid, seed, n, obj):
@@ -499,6 +587,61 @@ def run_check(chk, tier, replay=None):
                 fails.append((i, prof, "result depends on what ran before it on the same thread: %s in generated order, %s after `%s`"
                               % (a[:160], impl2[pos][:160], prev[:160]), "oracle"))
 
+    # 4c. twins: for a stratified sample of the cases, a NEAR COPY of the case (one hex digit flipped, two aligned chunks of an
+    # argument swapped, one argument taken from another case of the same operation, a number moved by one) is run right after
+    # the case itself and the case once more after that.  The implementation must (a) answer the case the same all three
+    # times and (b) answer the near copy the same as it does in another process where it comes first; with `twin_diff` it must
+    # (c) also agree with the model on the near copy.  (a)/(b) failing means an answer depends on what ran before (a result
+    # remembered under too small a key - a prefix, a length, a folded digest, a subset of the arguments); they compare the
+    # implementation with itself and need no model.
+    twins_checked = 0
+    if chk.twin_check and not replay and len(cases) > 1:
+        prof = chk.profiles[0]
+        tw = make_twins(cases, random.Random(seed * 104729 + 7), chk.twin_sample * (3 if thorough else 1), chk.twin_maxlen, chk.twin_args)
+        if tw:
+            seq = []
+            for i, tl, kind in tw:
+                seq += [lines[i], tl, lines[i]]
+            r1 = run_impl(bins[prof], seq, peak=False, timeout=chk.impl_timeout, shard=1998)
+            alone = [tl for _, tl, _ in tw][::-1]
+            r2 = run_impl(bins[prof], alone, peak=False, timeout=chk.impl_timeout)[::-1]
+            mt = ctx.model_many([tl for _, tl, _ in tw]) if chk.twin_diff else ["-"] * len(tw)
+            flagged = set(f[0] for f in fails)
+            for k, (i, tl, kind) in enumerate(tw):
+                a0 = impl[prof][i].split(" peak=")[0] if chk.peak else impl[prof][i]
+                a1, t1, a2 = r1[3 * k], r1[3 * k + 1], r1[3 * k + 2]
+                if "BADCASE" in (t1, r2[k], mt[k]) or mt[k] == "DRIVER-STACK-OVERFLOW":
+                    continue
+                twins_checked += 1
+                if i in flagged:
+                    continue
+                if a1 != a0 or a2 != a0:
+                    cases.append(Case(lines[i], "twin")); impl[prof].append(a2 if a2 != a0 else a1); model.append(model[i])
+                    for p2 in chk.profiles[1:]:
+                        impl[p2].append(impl[p2][i])
+                    fails.append((len(cases) - 1, prof, "result depends on what ran before it on the same thread: %s in generated order, "
+                                  "%s right after the near copy `%s` (%s)" % (a0[:160], (a2 if a2 != a0 else a1)[:160], tl[:200], kind), "oracle"))
+                elif t1 != r2[k]:
+                    cases.append(Case(tl, "twin")); impl[prof].append(t1); model.append(mt[k])
+                    for p2 in chk.profiles[1:]:
+                        impl[p2].append(t1)
+                    fails.append((len(cases) - 1, prof, "result depends on what ran before it on the same thread: %s right after its near copy `%s` "
+                                  "(%s), %s when it comes first in a fresh process" % (t1[:160], lines[i][:200], kind, r2[k][:160]), "oracle"))
+                elif chk.twin_diff and not chk.compare(t1, mt[k]):
+                    tc = Case(tl, "twin")
+                    try:
+                        why = chk.oracle(tc, t1, ctx)
+                    except Exception:
+                        why = None      # an oracle that carries per-case expectations may not know this line
+                    cases.append(tc); impl[prof].append(t1); model.append(mt[k])
+                    for p2 in chk.profiles[1:]:
+                        impl[p2].append(t1)
+                    if why:
+                        fails.append((len(cases) - 1, prof, why, "oracle"))
+                    else:
+                        fails.append((len(cases) - 1, prof, "model says %s, implementation says %s" % (mt[k][:200], t1[:200]), "diff"))
+            lines = [c.line for c in cases]
+
     # 5. classify
     oracle_fails = [f for f in fails if f[3] == "oracle"]
     diffs = [f for f in fails if f[3] == "diff"]
@@ -565,12 +708,12 @@ def run_check(chk, tier, replay=None):
         print("VIOLATION property=%s replay=%s%s" % (pid, p, suffix))
     write_evidence(chk, tier, seed, pr, cases, impl, model, chk.extra_coverage(cases, impl, model),
                    len(violations), time.time() - t0, notes, evalA=len(sample), diffs=len(diffs),
-                   oracle_fails=len(oracle_fails), known=sorted(seen_known), order_checked=order_checked)
+                   oracle_fails=len(oracle_fails), known=sorted(seen_known), order_checked=order_checked, twins=twins_checked)
     return 1 if violations else 0
 
 
 def write_evidence(chk, tier, seed, pr, cases, impl, model, extra, nviol, wall, notes, evalA=0, diffs=0,
-                   oracle_fails=0, known=(), order_checked=0):
+                   oracle_fails=0, known=(), order_checked=0, twins=0):
     distinct = {}
     classes = {}
     outcome = {}
@@ -598,6 +741,7 @@ def write_evidence(chk, tier, seed, pr, cases, impl, model, extra, nviol, wall, 
         "evaluatorA_cases_crosschecked": evalA,
         "model_impl_disagreements": diffs,
         "cases_rerun_in_shuffled_order": order_checked,
+        "near_copies_run_after_their_case": twins,
         "oracle_failures": oracle_fails,
         "known_findings_reproduced": list(known),
         "proof_failures": pr["failures"],
